@@ -147,71 +147,92 @@ func errorBeforeExit(a *parserAnchors, start *ssa.BasicBlock) string {
 	return rec(start)
 }
 
-// errorBeforeExitOrJoin: like errorBeforeExit, but a path that — without any side effect — reaches code that is also
-// executed when the flag is true (and merges no differing value there) behaves exactly like the tolerant run.
-func errorBeforeExitOrJoin(a *parserAnchors, start, trueSucc *ssa.BasicBlock) string {
-	reachT := map[*ssa.BasicBlock]bool{}
-	var mark func(b *ssa.BasicBlock)
-	mark = func(b *ssa.BasicBlock) {
-		if reachT[b] {
-			return
-		}
-		reachT[b] = true
-		for _, s := range b.Succs {
-			mark(s)
-		}
+// errorBeforeExitOrJoin decides the tolerant flag's non-interference at one branch: a strict run (flag false) that
+// records no error must do exactly what the tolerant run (flag true) does. From the flag-false successor every path is
+// followed, without side effects, to its first effect: an error-recording call (fine: the run is not error-free) or
+// the first block that stores, calls, or returns. All error-free strict paths must reach ONE such block, and every
+// path of the tolerant successor must reach that same block, equally without side effects and without merging a
+// differing value there.
+func errorBeforeExitOrJoin(a *parserAnchors, falseSucc, trueSucc *ssa.BasicBlock) string {
+	type eff struct {
+		blk *ssa.BasicBlock
+		why string
 	}
-	mark(trueSucc)
-	seen := map[*ssa.BasicBlock]bool{}
-	var rec func(b *ssa.BasicBlock) string
-	rec = func(b *ssa.BasicBlock) string {
-		if seen[b] {
-			return ""
-		}
-		seen[b] = true
-		if reachT[b] && b != start {
+	firstEffects := func(start *ssa.BasicBlock) (map[*ssa.BasicBlock]string, bool) {
+		out := map[*ssa.BasicBlock]string{}
+		errFirst := false
+		seen := map[*ssa.BasicBlock]bool{}
+		var rec func(b *ssa.BasicBlock)
+		rec = func(b *ssa.BasicBlock) {
+			if seen[b] {
+				return
+			}
+			seen[b] = true
 			for _, in := range b.Instrs {
-				if phi, ok := in.(*ssa.Phi); ok {
-					if !allSame(phi.Edges) {
-						return "merges a flag-dependent value"
+				switch x := in.(type) {
+				case *ssa.Call:
+					cal := x.Call.StaticCallee()
+					if a.errRecorders[cal] {
+						errFirst = true
+						return
 					}
-					continue
+					if cal != nil && (a.purePredicate(cal) || a.pureReader(cal)) {
+						continue
+					}
+					if _, isB := x.Call.Value.(*ssa.Builtin); isB {
+						continue
+					}
+					if cal != nil && !isLibPath(pkgPathOf(cal)) {
+						continue // formatting helpers of the standard library: no parser state involved
+					}
+					out[b] = "calls " + x.Call.Value.Name()
+					return
+				case *ssa.Return:
+					out[b] = "returns"
+					return
+				case *ssa.Store:
+					if !isLocalCell(x.Addr) {
+						out[b] = "writes state"
+						return
+					}
+				case *ssa.MapUpdate:
+					out[b] = "writes state"
+					return
+				case *ssa.Phi:
+					if !allSame(x.Edges) {
+						out[b] = "merges a value"
+						return
+					}
 				}
-				break
 			}
-			return "" // from here on the strict run executes what the tolerant run executes
-		}
-		for _, in := range b.Instrs {
-			switch x := in.(type) {
-			case *ssa.Call:
-				cal := x.Call.StaticCallee()
-				if a.errRecorders[cal] {
-					return ""
-				}
-				if cal != nil && (a.purePredicate(cal) || a.pureReader(cal)) {
-					continue
-				}
-				if cal == nil || isLibPath(pkgPathOf(cal)) {
-					return "calls " + x.Call.Value.Name()
-				}
-			case *ssa.Return:
-				return "returns"
-			case *ssa.Store:
-				if !isLocalCell(x.Addr) {
-					return "writes state"
-				}
-			case *ssa.MapUpdate:
-				return "writes state"
+			for _, s := range b.Succs {
+				rec(s)
 			}
 		}
-		for _, s := range b.Succs {
-			if why := rec(s); why != "" {
-				return why
-			}
-		}
-		return ""
+		rec(start)
+		return out, errFirst
 	}
-	return rec(start)
+	fe, _ := firstEffects(falseSucc)
+	if len(fe) == 0 {
+		return "" // every strict path records an error first
+	}
+	te, tErr := firstEffects(trueSucc)
+	if len(fe) > 1 {
+		var w string
+		for _, v := range fe {
+			w = v
+		}
+		return "can, depending on further conditions, do different things (" + w + " …)"
+	}
+	var fb *ssa.BasicBlock
+	var fwhy string
+	for b, w := range fe {
+		fb, fwhy = b, w
+	}
+	if tErr || len(te) != 1 || te[fb] == "" {
+		return fwhy + " on a path where the tolerant run can do something else"
+	}
+	return ""
 }
 
 // R13.2: smart semicolons only for '(' / '[' after a line break.
